@@ -151,6 +151,15 @@ def parse_circexplorer(args:argparse.Namespace):
             tally.skipped.total += 1
             tally.skipped.insufficient_evidence += 1
             continue
+        if record.isoform_name not in anno.transcripts:
+            logger.warning(
+                "The CIRCexplorer record %s is from transcript %s, which is not"
+                " in the annotation. Skipping it from parsing.",
+                record.name, record.isoform_name
+            )
+            tally.skipped.invalid_record += 1
+            tally.skipped.total += 1
+            continue
         try:
             circ_record = record.convert_to_circ_rna(anno, intron_start_range,
                 intron_end_range)
